@@ -43,16 +43,20 @@ theorem search_append_first (m : PStr → Option Nat) (a b : PStr) (l : Nat)
 /-! ### the grammar -/
 
 def isLower (c : Nat) : Bool := 97 ≤ c && c ≤ 122
-def isLowerAlnum (c : Nat) : Bool := isLower c || isDigit c
+/-- `[-.:_a-z0-9]`: what may follow the first letter of a (tag or attribute) name -/
+def isNameCh (c : Nat) : Bool := isLower c || isDigit c || c == 45 || c == 46 || c == 58 || c == 95
 
-/-- `[a-z][a-z0-9]*` -/
-def NameOK (n : PStr) : Prop := ∃ c t, n = c :: t ∧ isLower c = true ∧ ∀ x ∈ t, isLowerAlnum x = true
+/-- `[a-z][-.:_a-z0-9]*` -/
+def NameOK (n : PStr) : Prop := ∃ c t, n = c :: t ∧ isLower c = true ∧ ∀ x ∈ t, isNameCh x = true
 
-theorem isLowerAlnum_facts (x : Nat) (h : isLowerAlnum x = true) :
+theorem isNameCh_range (x : Nat) (h : isNameCh x = true) :
+    (97 ≤ x ∧ x ≤ 122) ∨ (48 ≤ x ∧ x ≤ 57) ∨ x = 45 ∨ x = 46 ∨ x = 58 ∨ x = 95 := by
+  simp only [isNameCh, isLower, isDigit, Bool.or_eq_true, Bool.and_eq_true, decide_eq_true_eq, beq_iff_eq] at h
+  omega
+
+theorem isNameCh_facts (x : Nat) (h : isNameCh x = true) :
     isEndNameCh x = true ∧ isTagNameCh x = true ∧ isAttrRest x = true ∧ isAttrFirst x = true ∧ x ≠ 62 ∧ isWs x = false := by
-  have hr : (97 ≤ x ∧ x ≤ 122) ∨ (48 ≤ x ∧ x ≤ 57) := by
-    simp only [isLowerAlnum, isLower, isDigit, Bool.or_eq_true, Bool.and_eq_true, decide_eq_true_eq] at h
-    exact h
+  have hr := isNameCh_range x h
   have hws : isWs x = false := by
     simp only [isWs, BS.Gen.pyWhitespace, List.contains_eq_mem, List.mem_cons, List.not_mem_nil, or_false, decide_eq_false_iff_not]
     omega
@@ -66,11 +70,11 @@ theorem isLowerAlnum_facts (x : Nat) (h : isLowerAlnum x = true) :
   · simp only [isAttrFirst, hws, Bool.false_or, Bool.not_eq_true', Bool.or_eq_false_iff, beq_eq_false_iff_ne, ne_eq]
     omega
 
-theorem isLower_facts (c : Nat) (h : isLower c = true) : isAlpha c = true ∧ isLowerAlnum c = true := by
+theorem isLower_facts (c : Nat) (h : isLower c = true) : isAlpha c = true ∧ isNameCh c = true := by
   simp only [isLower, Bool.and_eq_true, decide_eq_true_eq] at h
   constructor
   · simp only [isAlpha, Bool.or_eq_true, Bool.and_eq_true, decide_eq_true_eq]; omega
-  · simp only [isLowerAlnum, isLower, Bool.or_eq_true, Bool.and_eq_true, decide_eq_true_eq]; omega
+  · simp only [isNameCh, isLower, isDigit, Bool.or_eq_true, Bool.and_eq_true, decide_eq_true_eq, beq_iff_eq]; omega
 
 /-! ### end tags -/
 
@@ -82,7 +86,7 @@ theorem parseEndTag_write (P : Params) (cd : Option PStr) (name rest : PStr) (hn
     parseEndTag P cd (writeEndTag name ++ rest) = .ok (.et name) (writeEndTag name).length none := by
   obtain ⟨c, t, rfl, hc, ht⟩ := hn
   have hcf := isLower_facts c hc
-  have hcl := isLowerAlnum_facts c hcf.2
+  have hcl := isNameCh_facts c hcf.2
   have hfind : findCh 62 (47 :: c :: (t ++ 62 :: rest)) = some (2 + t.length) := by
     have := findCh_append_first 62 (47 :: c :: t) rest (by
       intro x hx
@@ -90,11 +94,11 @@ theorem parseEndTag_write (P : Params) (cd : Option PStr) (name rest : PStr) (hn
       rcases hx with rfl | rfl | hx
       · decide
       · exact hcl.2.2.2.2.1
-      · exact (isLowerAlnum_facts x (ht x hx)).2.2.2.2.1)
+      · exact (isNameCh_facts x (ht x hx)).2.2.2.2.1)
     rw [show 2 + t.length = (47 :: c :: t).length by simp; omega]
     simpa using this
   have hspan : spanLen isEndNameCh (t ++ 62 :: rest) = t.length :=
-    spanLen_append_stop _ _ _ (fun x hx => (isLowerAlnum_facts x (ht x hx)).1) (by intro c' h; simp at h; subst h; decide)
+    spanLen_append_stop _ _ _ (fun x hx => (isNameCh_facts x (ht x hx)).1) (by intro c' h; simp at h; subst h; decide)
   have hw1 : spanLen isWs (c :: (t ++ 62 :: rest)) = 0 := spanLen_zero _ _ (by intro c' h; simp at h; subst h; exact hcl.2.2.2.2.2)
   have hw2 : spanLen isWs (62 :: rest) = 0 := spanLen_zero _ _ (by intro c' h; simp at h; subst h; decide)
   have hetf : endTagFind (60 :: 47 :: c :: (t ++ 62 :: rest)) = some (c :: t) := by
@@ -190,21 +194,19 @@ theorem parseComment_write_nogt (cd : Option PStr) (body rest : PStr) (hb : ∀ 
 /-- `<name>` -/
 def writeStartTag0 (name : PStr) : PStr := [60] ++ name ++ [62]
 
-theorem isLowerAlnum_noLookbehind (x : Nat) (h : isLowerAlnum x = true) : isLookbehind x = false := by
-  have hf := isLowerAlnum_facts x h
-  have hr : (97 ≤ x ∧ x ≤ 122) ∨ (48 ≤ x ∧ x ≤ 57) := by
-    simp only [isLowerAlnum, isLower, isDigit, Bool.or_eq_true, Bool.and_eq_true, decide_eq_true_eq] at h
-    exact h
+theorem isNameCh_noLookbehind (x : Nat) (h : isNameCh x = true) : isLookbehind x = false := by
+  have hf := isNameCh_facts x h
+  have hr := isNameCh_range x h
   simp only [isLookbehind, hf.2.2.2.2.2, Bool.or_false, Bool.or_eq_false_iff, beq_eq_false_iff_ne, ne_eq]
   omega
 
-theorem charBefore_name (c : Nat) (t tail : PStr) (hc : isLowerAlnum c = true) (ht : ∀ x ∈ t, isLowerAlnum x = true) :
+theorem charBefore_name (c : Nat) (t tail : PStr) (hc : isNameCh c = true) (ht : ∀ x ∈ t, isNameCh x = true) :
     isLookbehind (charBefore 0 (60 :: c :: (t ++ tail)) (2 + t.length)) = false := by
   have htake : (60 :: c :: (t ++ tail)).take (2 + t.length) = 60 :: c :: t := by
     rw [show 2 + t.length = t.length + 1 + 1 by omega]; simp
   have hne : (c :: t) ≠ [] := by simp
   simp only [charBefore, htake, List.getLast?_cons_cons, List.getLast?_eq_some_getLast hne, Option.getD_some]
-  apply isLowerAlnum_noLookbehind
+  apply isNameCh_noLookbehind
   have := List.getLast_mem hne
   simp only [List.mem_cons] at this
   rcases this with h | h
@@ -221,7 +223,7 @@ theorem parseStartTag_write_partial (P : Params) (cd : Option PStr) (name rest :
   have hcf := isLower_facts c hc
   have hgt : ∀ (c' : Nat), (62 :: rest).head? = some c' → c' = 62 := by intro c' h; simpa using h.symm
   have hname : spanLen isTagNameCh (t ++ 62 :: rest) = t.length :=
-    spanLen_append_stop _ _ _ (fun x hx => (isLowerAlnum_facts x (ht x hx)).2.1) (by intro c' h; rw [hgt c' h]; decide)
+    spanLen_append_stop _ _ _ (fun x hx => (isNameCh_facts x (ht x hx)).2.1) (by intro c' h; rw [hgt c' h]; decide)
   have hwsl : spanLen isWsSlash (62 :: rest) = 0 := spanLen_zero _ _ (by intro c' h; rw [hgt c' h]; decide)
   have hws : spanLen isWs (62 :: rest) = 0 := spanLen_zero _ _ (by intro c' h; rw [hgt c' h]; decide)
   have hlb := charBefore_name c t (62 :: rest) hcf.2 ht
